@@ -63,15 +63,29 @@ def make_scratch(groups):
     return d
 
 
+def run_killable(cmd, cwd, env, timeout):
+    """run in its own process group; on timeout kill the whole group (cargo kani leaves cbmc children behind otherwise)"""
+    import signal
+    p = subprocess.Popen(cmd, cwd=cwd, env=env, stdout=subprocess.PIPE, stderr=subprocess.STDOUT, text=True, start_new_session=True)
+    try:
+        out, _ = p.communicate(timeout=timeout)
+        return p.returncode, out
+    except subprocess.TimeoutExpired:
+        try:
+            os.killpg(p.pid, signal.SIGKILL)
+        except Exception:
+            pass
+        p.communicate()
+        return None, ""
+
+
 def run_harness(scratch, h, target_dir):
     t0 = time.time()
     cmd = ["cargo", "kani", "-Z", "function-contracts", "-Z", "stubbing", "--harness", h["name"], "--output-format", "terse",
            "--target-dir", target_dir]
     env = dict(os.environ, CARGO_NET_OFFLINE="true")
-    try:
-        p = subprocess.run(cmd, cwd=scratch, env=env, capture_output=True, text=True, timeout=h["timeout"])
-        out = p.stdout + "\n" + p.stderr
-    except subprocess.TimeoutExpired as e:
+    rc, out = run_killable(cmd, scratch, env, h["timeout"])
+    if rc is None:
         return dict(h, status="undecided", detail="timeout after %ds" % h["timeout"], time_s=time.time() - t0)
     res = dict(h, time_s=round(time.time() - t0, 2))
     if "VERIFICATION:- SUCCESSFUL" in out:
@@ -95,11 +109,9 @@ def playback(scratch, h, target_dir):
     """concrete playback values for a failed harness"""
     cmd = ["cargo", "kani", "-Z", "function-contracts", "-Z", "stubbing", "-Z", "concrete-playback", "--concrete-playback=print",
            "--harness", h["name"], "--target-dir", target_dir]
-    try:
-        p = subprocess.run(cmd, cwd=scratch, env=dict(os.environ, CARGO_NET_OFFLINE="true"), capture_output=True, text=True, timeout=h["timeout"])
-    except subprocess.TimeoutExpired:
+    rc, out = run_killable(cmd, scratch, dict(os.environ, CARGO_NET_OFFLINE="true"), h["timeout"])
+    if rc is None:
         return None
-    out = p.stdout
     blocks = re.findall(r"```\n(.*?)```", out, re.S)
     blocks = [b for b in blocks if "Check for `cover`" not in b] or blocks
     if not blocks:
